@@ -27,6 +27,10 @@ TEXT = {
          "row generator gives every same-typed pair of columns different values so that a transposed bind cannot hide"),
  "C14": ("Fault enumeration inside each mutating call: for sampled (pre-state, call) pairs on an on-disk library the call is re-executed from the same restored disk image once per fault position - every SQL statement failing with BUSY/ERROR/READONLY (exhaustive), every VFS call of the call addressed as (method, file, ordinal), every VM tick (cancellation), seeded SQLite allocation failures - and the full public observation afterwards must equal the pre-state (or, for real-path faults that SQLite reports after its commit point, exactly the fault-free post-state); errors must surface as std::exception and the call must succeed when retried.",
          "inner loop exhaustive for F1 and within caps (256) for F2/F3, outer loop sampled; F1 is a stub-level fault at the statement boundary, F2-F4 go through SQLite's real pager/journal error paths on the simulated disk"),
+ "C04": ("Two parties on one simulated disk: a foreign writer with its own SQLite connection stores 2.x performance blobs encoded by an independent codec in shapes the library never produces (0..12 entries, flag bytes other than 0/1, non-zero unknown fields, default != adjusted grid, trailing bytes, NaN payloads) or mutates stored payloads; the library then performs table-API get->update of the unchanged row, per-column blob get->set and every public single-field setter; before and after each write an independent reader inflates the five stored blobs and compares them field by field: everything the operation does not own must be byte-identical (the main-cue-adjusted byte may be normalised to 1), and a rejected write must change nothing.",
+         "set_loops / set_waveform replace their whole blob and own it; update(snapshot) is not a single-field change and is not judged"),
+ "C05": ("Storage faults as the source of arbitrary bytes: in a library with fully analysed tracks a second SQLite client damages one stored blob cell at a time (truncation at every length, bit flips in the compressed stream, payload edits re-deflated, every embedded count/length set to -1/0/1/fit/fit+1/2^31/2^61/2^63-1/INT64_MIN, rewritten length prefix, trailing garbage, missing end marker, tiny and NULL cells, truncated payload in an intact frame, lost and torn ranges) or flips bits in raw database pages while the library is closed; afterwards every reader runs (snapshot, all getters, read-modify-write setters, track_table::get, per-column blob getters, the public from_blob decoders on the same bytes) under ASan+UBSan+libstdc++ assertions with deterministic termination detectors (inflate progress, VM ticks). Any sanitizer report, signal, foreign exception or non-termination is a violation; all 11 decoders (6 x 1.x through the track API, 5 x 2.x directly and through both APIs) are reached.",
+         "seeded structured corruption of real stored blobs, not coverage-guided fuzzing and not exhaustive over short inputs (stated in DESIGN section 7)"),
  "C15": ("Hostile-caller simulated histories on every supported schema with the library built with AddressSanitizer, UndefinedBehaviorSanitizer and libstdc++ assertions: ordinary operations are interleaved with out-of-range cue/loop indices, over-long cue lists, NUL / invalid-UTF-8 / 300-byte labels, waveforms without sample rate or count, ids of nonexistent or removed entities, create_*_after with crates from elsewhere in the tree, odd crate names and every member function of stale track and crate handles. Each call must return or throw a std::exception; any sanitizer report, signal, assertion, watchdog (VM ticks, inflate progress, wall clock) or foreign exception is a violation attributed to the flushed run; stale handles must keep their id and report is_valid() == false.",
          "finite doubles only (as the statement quantifies); C++ operator new failure is not injected"),
  "C16": ("In every state reached by the workloads a monitor brackets the complete block of observing calls (every getter, snapshot(), listings, lookups) with SimDisk write/truncate/delete counters for non-temporary files, sqlite3_total_changes of the library's connections and the image hash; the block is repeated with the simulated clock moved and must give identical answers.",
